@@ -728,6 +728,9 @@ impl ZmtpEngine {
       };
 
       self.last_activity_time = Instant::now();
+      // Any frame from the peer proves it is alive: stop waiting for the outstanding PONG so
+      // that a connection on which traffic keeps flowing is not closed by the heartbeat timeout.
+      self.waiting_for_pong = false;
 
       if msg.is_command() {
         // ZMTP/2.0 has no COMMAND frames; receiving one is a protocol violation.
